@@ -101,9 +101,11 @@ fn rule(
             let max = state.pos_max;
 
             state.link_level += 1;
+            state.level += 1;
             state.pos = result.label_start;
             state.pos_max = result.label_end;
             state.md.inline.tokenize(state);
+            state.level -= 1;
             state.pos_max = max;
 
             let mut node = std::mem::replace(&mut state.node, old_node);
